@@ -611,6 +611,7 @@ type c36Run struct {
 	closeAt   atomic.Int64 // the same as UnixNano, for the pump scripts
 	stop      chan struct{}
 	scripts   sync.WaitGroup
+	pressure  sync.WaitGroup // lock-pressure writers: after a deadlock they are blocked for ever and are not waited for
 }
 
 var c36Seq atomic.Int64
@@ -976,9 +977,9 @@ func c36Check(c c36Case, r *evid.Rec) (discs []evid.Disc) {
 		time.Sleep(time.Duration(c.CloseDelayUs) * time.Microsecond)
 	}
 	for i := 0; i < c.Pressure; i++ {
-		run.scripts.Add(1)
+		run.pressure.Add(1)
 		go func(i int) {
-			defer run.scripts.Done()
+			defer run.pressure.Done()
 			d := run.srv.NewClient(nil, lid+"-other", fmt.Sprintf("%s-pressure-%d", lid, i), false)
 			for {
 				select {
@@ -1449,7 +1450,7 @@ func (run *c36Run) cleanup(closeDone chan struct{}, releaseParked func(), r *evi
 		}
 	}
 	done := make(chan struct{})
-	go func() { run.scripts.Wait(); close(done) }()
+	go func() { run.scripts.Wait(); run.pressure.Wait(); close(done) }()
 	select {
 	case <-done:
 	case <-time.After(10 * time.Second):
@@ -1602,10 +1603,10 @@ func TestC36(t *testing.T) {
 	r := evid.New("C36", "one real broker per case (mqtt.New, allow-all auth, listeners.TCP on 127.0.0.1:0, Serve) with 4-40 loopback TCP clients driven to generated stages "+
 		"(dialled only, CONNECT half sent, established v3.1.1/v5, subscribed, PUBLISH half sent, publishing back to back, already gone) and Server.Close() called after a generated number of them "+
 		"reached their stage, so the rest are dialling / connecting while Close() runs; directed classes hold a handler at the verif points attach.start (before ClientsWg.Add) or "+
-		"attach.afterLimitCheck (before Clients.Add) while Close() runs, or dial from inside closeListenerClients. Oracle once Close() has returned: every client socket reads EOF/reset within 2 s "+
+		"attach.afterLimitCheck (before Clients.Add) while Close() runs, dial from inside closeListenerClients, or write the client registry (Clients.Add/Delete) at a high rate while Close() reads it. Oracle once Close() has returned: every client socket reads EOF/reset within 2 s "+
 		"(GC off, so finalizers cannot close anything), v5 clients whose CONNACK arrived before the call saw DISCONNECT 0x8B, a new dial is refused, and no handler (attach.start seen, attach.end not yet) "+
 		"was alive at the moment of return or started later. Close() not returning is a violation only with two identical goroutine dumps showing Close in WaitGroup.Wait and every handler in a network read "+
-		"on an open, silent harness connection. RULE: a case is non-trivial when at least one accepted connection was open when Close() was called; the key is class + the multiset of "+
+		"on an open, silent harness connection, or the read-lock cycle Close -> Clients.GetByListener -> Clients.Len behind a waiting Clients.Add/Delete; otherwise inconclusive after 15 s. RULE: a case is non-trivial when at least one accepted connection was open when Close() was called; the key is class + the multiset of "+
 		"(stage, version, parked point, settled-before-Close) + close point.")
 	defer r.Finish(t)
 	r.Assume("schedules are explored statistically (free-running class) and by directed placement (verif schedule points, an OnPacketEncode hook inside closeListenerClients); a replay re-executes the saved case in real time, the free-running class may then take a different interleaving")
